@@ -36,7 +36,7 @@ static void op_matmul(int which) {
     MatrixTranspose(a, at); MatrixTranspose(b, bt); MatrixTranspose(r, rt); MatrixDotProduct(bt, at, r2);
     vx_transition(4);
     double d2 = hm_maxdiff(rt, r2);
-    vx_check(d2 <= 2 * tolk(k, bound), "law|(AB)^T=B^T A^T", "(%d,%d,%d): %g", m, k, n, d2);
+    vx_check(d2 <= 2 * tolk(k, bound), "law|(AB)^T=B^T*A^T", "(%d,%d,%d): %g", m, k, n, d2);
     /* A(B+C) = AB + AC */
     fill(C_, f + 200, k, n, sc);
     matrix *c = hm_new(k, n, C_), *bc = hm_new(k, n, NULL), *r3 = hm_new(m, n, NULL), *r4 = hm_new(m, n, NULL);
@@ -103,7 +103,7 @@ static void op_unary(void) {
   MatrixTranspose(a, t); MatrixTranspose(t, tt); vx_transition(2);
   int ok = 1; for (int i = 0; i < m; i++) for (int j = 0; j < n; j++) if (t->data[j][i] != a->data[i][j]) ok = 0;
   vx_check(ok, "value|MatrixTranspose", "(%d,%d)", m, n);
-  vx_check(hm_maxdiff(a, tt) == 0, "law|transpose involution", "(%d,%d)", m, n);
+  vx_check(hm_maxdiff(a, tt) == 0, "law|transpose-involution", "(%d,%d)", m, n);
   ld ss = 0; for (int i = 0; i < m; i++) for (int j = 0; j < n; j++) ss += (ld)a->data[i][j] * a->data[i][j];
   double nr = Matrixnorm(a); vx_transition(1);
   vx_check(fabs(nr - (double)sqrtl(ss)) <= 64 * DEPS * (m * n + 2) * (double)sqrtl(ss), "value|Matrixnorm", "(%d,%d): %g vs %Lg", m, n, nr, sqrtl(ss));
@@ -122,14 +122,15 @@ static void op_unary(void) {
 }
 
 static void op_stats(void) {
-  int m = 1 + vx_choose("m-1", NMAX - 1), n = vx_choose("n", NMAX), f = vx_choose("fam", 3), off = vx_choose("offset", 3);
-  double sc = SCALES[f % 3], offs = off == 0 ? 0 : off == 1 ? 7.5 * sc : -1e3 * sc;
+  int m = 1 + vx_choose("m-1", NMAX - 1), n = vx_choose("n", NMAX), f = vx_choose("fam", 3), off = vx_choose("offset", 4);
+  double sc = SCALES[f % 3], offs = off == 0 ? 0 : off == 1 ? 7.5 * sc : off == 2 ? -1e3 * sc : 1e6;
+  vx_require(off < 3 || sc <= 1.0);          /* values stay within the 1e-6..1e6 span of the statement */
   fill(A_, f, m, n, sc); for (int i = 0; i < m * n; i++) A_[i] += offs;
   matrix *a = hm_new(m, n, A_); rmat *ra = rm_from(a);
   dvector *avg, *sd, *rms, *var, *rav; initDVector(&avg); initDVector(&sd); initDVector(&rms); initDVector(&var); initDVector(&rav);
   MatrixColAverage(a, avg); MatrixColRMS(a, rms); MatrixRowAverage(a, rav); vx_transition(3);
   if (m >= 2) { MatrixColSDEV(a, sd); MatrixColVar(a, var); vx_transition(2); }
-  vx_check((int)avg->size == n && (int)rms->size == n && (int)rav->size == (n > 0 ? m : m), "shape|column statistics", "(%d,%d): sizes %zu %zu %zu", m, n, avg->size, rms->size, rav->size);
+  vx_check((int)avg->size == n && (int)rms->size == n && (int)rav->size == (n > 0 ? m : m), "shape|column-statistics", "(%d,%d): sizes %zu %zu %zu", m, n, avg->size, rms->size, rav->size);
   double mag = fabs(offs) + sc; int anyflush = 0;
   for (int j = 0; j < n && (int)avg->size == n; j++) {
     ld mean, s, r; int cnt; rm_col_stats(ra, j, &cnt, &mean, &s, &r, NULL, NULL);
@@ -138,10 +139,12 @@ static void op_stats(void) {
     vx_check(fabs(avg->data[j] - (double)mean) <= 64 * DEPS * (m + 2) * mag, flush ? "value|MatrixColAverage|abs(colsum)<1e-6" : "value|MatrixColAverage", "(%d,%d) col %d: %g vs %Lg", m, n, j, avg->data[j], mean);
     vx_check(fabs(rms->data[j] - (double)r) <= 64 * DEPS * (m + 2) * mag, "value|MatrixColRMS", "(%d,%d) col %d: %g vs %Lg", m, n, j, rms->data[j], r);
     if (m >= 2 && (int)sd->size == n && (int)var->size == n) {
-      /* cancellation: the library subtracts a rounded mean; error ~ eps*mag relative to spread */
-      double tol = 64 * DEPS * (m + 2) * mag * (1 + mag / ((double)s + 1e-300));
+      /* two-pass centred sum of squares: each centred value carries eps*mag, each product eps*spread^2; the error of the
+       * rounded mean cancels to first order.  A one-pass (sum x^2 - n mean^2) formula would err by eps*m*mag^2. */
+      double tolvar = 64 * DEPS * (m + 2) * (sc * sc + mag * sc);
+      double tol = (double)s > 0 ? tolvar / (2 * (double)s) + 8 * DEPS * (double)s : sqrt(tolvar);
       vx_check(fabs(sd->data[j] - (double)s) <= tol, "value|MatrixColSDEV", "(%d,%d) col %d: %g vs %Lg tol %g", m, n, j, sd->data[j], s, tol);
-      vx_check(fabs(var->data[j] - (double)(s * s)) <= 2 * tol * (double)s + tol * tol, "value|MatrixColVar", "(%d,%d) col %d: %g vs %Lg", m, n, j, var->data[j], s * s);
+      vx_check(fabs(var->data[j] - (double)(s * s)) <= tolvar, "value|MatrixColVar", "(%d,%d) col %d: %g vs %Lg tol %g", m, n, j, var->data[j], s * s, tolvar);
     }
   }
   if (n > 0) for (int i = 0; i < m && (int)rav->size == m; i++) {
@@ -156,13 +159,13 @@ static void op_stats(void) {
       rmat *rc = rm_new(n, n); ld *mu = calloc((size_t)n, sizeof(ld));
       for (int j = 0; j < n; j++) rm_col_stats(ra, j, NULL, &mu[j], NULL, NULL, NULL, NULL);
       for (int i = 0; i < n; i++) for (int j = 0; j < n; j++) { ld s = 0; for (int k = 0; k < m; k++) s += (RM(ra, k, i) - mu[i]) * (RM(ra, k, j) - mu[j]); RM(rc, i, j) = s / (m - 1); }
-      double tol = 64 * DEPS * (m + 2) * mag * mag;
+      double tol = 64 * DEPS * (m + 2) * (sc * sc + mag * sc);   /* centred products, see the variance bound above */
       vx_check(hm_maxdiff_rm(cm, rc) <= tol, anyflush ? "value|MatrixCovariance|abs(colsum)<1e-6" : "value|MatrixCovariance", "(%d,%d): %g tol %g", m, n, hm_maxdiff_rm(cm, rc), tol);
       double asym = 0; for (int i = 0; i < n; i++) for (int j = 0; j < n; j++) asym = fmax(asym, fabs(cm->data[i][j] - cm->data[j][i]));
-      vx_check(asym <= tol, "law|covariance symmetric", "(%d,%d): %g", m, n, asym);
+      vx_check(asym <= tol, "law|covariance-symmetric", "(%d,%d): %g", m, n, asym);
       rmat *lc = rm_from(cm); for (int i = 0; i < n; i++) for (int j = 0; j < i; j++) RM(lc, i, j) = RM(lc, j, i) = (RM(lc, i, j) + RM(lc, j, i)) / 2;
       ld *ev = calloc((size_t)n, sizeof(ld)); rm_jacobi_eig(lc, ev, NULL);
-      vx_check((double)ev[n - 1] >= -tol * n, anyflush ? "law|covariance PSD|abs(colsum)<1e-6" : "law|covariance PSD", "(%d,%d): min eigenvalue %Lg", m, n, ev[n - 1]);
+      vx_check((double)ev[n - 1] >= -tol * n, anyflush ? "law|covariance-PSD|abs(colsum)<1e-6" : "law|covariance-PSD", "(%d,%d): min eigenvalue %Lg", m, n, ev[n - 1]);
       vx_outcome(hm_hash(cm, 41));
       free(ev); free(mu); rm_free(rc); rm_free(lc);
     }
